@@ -112,13 +112,29 @@ StartListening ==
   /\ step = "done" /\ stopped /\ stopped' = FALSE /\ localOpen' = TRUE
   /\ UNCHANGED <<cfgNow, fault, others, step, pendOut, loop, asked, exists, result, why, nres>>
 
+\* listen() is called again on the same endpoint object (Twisted endpoints may be listened on repeatedly: a retry, a
+\* service that is restarted); the configuration is there by now.
+\*  - after a refused creation: everything again - a new local listener, Tor asked to forward to that one
+\*  - after the port object of a successful listen() was stopped: the service exists and keeps forwarding to the local
+\*    port bound then, Tor is not asked again: the listener is bound on that very port again and listen resolves at once
+\*    (the trace specification compares the port bound now with the mapping Tor was given)
+Relisten ==
+  /\ \/ step = "failed" /\ fault = "reject"
+     \/ step = "done" /\ stopped
+  /\ IF step = "failed"
+     THEN /\ fault' = "none" /\ cfgNow' = TRUE /\ step' = "create" /\ localOpen' = TRUE /\ loop' = TRUE /\ asked' = TRUE
+          /\ result' = "p" /\ why' = "" /\ nres' = 0 /\ stopped' = FALSE
+          /\ UNCHANGED <<others, pendOut, exists>>
+     ELSE /\ localOpen' = TRUE /\ stopped' = FALSE /\ result' = "port" /\ nres' = 1
+          /\ UNCHANGED <<cfgNow, fault, others, step, pendOut, loop, asked, exists, why>>
+
 \* descriptor events of another onion service on the same Tor arrive: nothing changes for this listen()
 Foreign == UNCHANGED vars
 \* likewise a failed *fetch* of this service's descriptor (somebody looked the address up before it was published):
 \* Tor reports it with the same event word and our address; it is not an upload and decides nothing
 FetchFailed == UNCHANGED vars
 
-Next == Foreign \/ FetchFailed \/ Refuse \/ Listen \/ ConfigReady \/ CreateReply \/ Disconnect \/ WaitOver \/ Cancel \/ UnsubAck \/ StopListening \/ StartListening
+Next == Foreign \/ FetchFailed \/ Refuse \/ Listen \/ ConfigReady \/ CreateReply \/ Disconnect \/ WaitOver \/ Cancel \/ UnsubAck \/ StopListening \/ StartListening \/ Relisten
 Spec == Init /\ [][Next]_vars
 
 ----------------------------------------------------------------------------
